@@ -56,7 +56,11 @@ pub fn classify_full(r: &Replay, tmpdir: &str, tag: &str) -> Vec<crate::replay::
                 }
                 let mut all = o.stderr.clone();
                 all.extend_from_slice(&captured);
-                let why = abort_signature(&all);
+                // an allocation failure is the known magnitude defect only when
+                // the program actually holds a magnitude (a string or a number
+                // above 16 bits next to an address-like construct); otherwise
+                // it is a runaway (a loop that accumulates) and keeps its site
+                let why = abort_signature(&all).map(|w| if w.starts_with("oom") && replay_has_magnitude(r) { w.replacen("oom", "oom-magnitude", 1) } else { w });
                 return vec![Violation::new(&format!("I1-abort:{}", why.unwrap_or_else(|| format!("signal{}", sig))), format!("process killed by signal {}: {}", sig, crate::orch::truncate(&String::from_utf8_lossy(&all), 300)))];
             }
             let text = String::from_utf8_lossy(&o.stdout);
@@ -92,6 +96,30 @@ pub fn abort_signature(stderr: &[u8]) -> Option<String> {
         return Some("oom".to_string());
     }
     None
+}
+
+/// Does any source file (or define) of the replayed jobs combine a
+/// magnitude-consuming construct with a string literal or a number above 16
+/// bits on one line?
+pub fn replay_has_magnitude(r: &Replay) -> bool {
+    let mut jobs: Vec<&crate::job::Job> = r.plan.jobs.iter().collect();
+    if let Some(p) = &r.proc {
+        jobs.push(&p.job);
+    }
+    jobs.iter().any(|j| job_has_magnitude(j))
+}
+
+pub fn job_has_magnitude(job: &crate::job::Job) -> bool {
+    for (path, data) in job.disk.files() {
+        if !path.starts_with(crate::corpus::PROJ) {
+            continue;
+        }
+        // every line counts as "changed" against an empty text
+        if crate::mutate::magnitude_risky(b"", data) {
+            return true;
+        }
+    }
+    job.argv.iter().any(|a| a.split('=').nth(1).map(|v| crate::mutate::is_big_number(v.as_bytes())).unwrap_or(false))
 }
 
 fn same_class(target: &str, got: &[String]) -> bool {
